@@ -199,6 +199,8 @@ TRACES = {
     "all":   {"quick": (3, 300, 300), "thorough": (24, 400, 2000)},
 }
 
+CLTXT = 'MC_cl.tla evaluates the CL03 specification on bounded instances (toy RSA groups from safe primes, message formats, the verifiers as constraint sets, the table of blinding lengths) and TLC checks the invariant(s) named in the evidence; the drivers of the CL harness run the real library (feature cl03, keys generated by the library) systematically and log one event per observation; TLC validates every log against Trace_CL.tla, whose predictions are derived from CL03.tla. '
+
 MC_TEXT = "TLC checks the invariant(s) exhaustively on the bounded slice(s) listed in the evidence (constants recorded there), in the toy interpretation of the mechanical transcription of the operations (Mech) against the provenance-level statement of the property (Prov); every behaviour of the slice is exported and replayed into the real library under several concretisations of its abstract octets, where decisions, lengths and (for deterministic operations) octets must agree with the specification; "
 
 PROPS = {
@@ -214,6 +216,32 @@ PROPS = {
             "level_text": MC_TEXT + "slice `blind`: (L, M) up to the bounds, with and without commitment (and commitment to zero messages), ALL pairs of disclosure choices, absent/empty presentations, round trips; blind signature octets equal the specification's."},
     "C06": {"slices": ["blind_adv", "shape_blind"], "traces": "blind", "tally": ["C06"], "title": "Blind BBS soundness",
             "level_text": MC_TEXT + "slice `blind_adv`: tampered / truncated / extended / cross-suite commitments shown to the signer (with bit flips of the commitment octets), every single edit of the inputs of verify_blind_sign and blind_proof_verify including L +- 1, aliasing of committed and signer messages, duplicate indexes with forged messages, plain-interface verification."},
+    "C07": {"kind": "rng", "title": "Fresh blinding",
+            "level_text": "The specification Rng.tla (per-thread streams of globally unique draws, the consumption map of proof_gen / commit / random keys / blinding factors) is model-checked by TLC over all interleavings of three threads (invariants Fresh, Consumption; the shared-stream variant is shown to violate Fresh). Randomness traces recorded from the real library on 1, 2 and 16 threads and in separately started processes - every production draw (hook), the blinding scalars recomputed by the witness holder, group elements, secrets, and scans of the encodings for hidden values - are validated by TLC against Trace_Rng.tla: all values pairwise distinct, non-zero, of full size, zero scan hits.",
+            "level_note": "Distinctness / size / non-zero only; the unpredictability of rand::thread_rng is trusted. Trusted base: TLC, the rng_draw hook (add-only), SHA-256 digests truncated to 96 bits."},
+    "C08": {"kind": "codec", "title": "Untrusted input never crashes",
+            "level_text": "Codec.tla defines every BBS decoder as a total function of (length, content class per field) and the count arithmetic of the entry points taking untrusted numbers with explicit guards; TLC enumerates every length 0 .. honest + 64, every single-field class and the grid of indexes / counts (scaled usize) and checks that no input yields Panic and that requested work stays within the budget; every enumerated input is built concretely and handed to the real decoders / entry points under catch_unwind with overflow checks on and a generator budget installed through the gen_request hook; the panic tallies of the API slices and of all traces count as well."},
+    "C09": {"kind": "codec", "title": "Canonical and strict encodings",
+            "level_text": "Codec.tla: a strict decoder accepts exactly the honest length, canonical scalars, valid subgroup points, and rejects identity / zero where draft-08 forbids them; invariant C09: whatever decodes re-encodes to itself. TLC enumerates lengths and content classes; each input is replayed into the library's decoders (decision, and re-encoding compared octet for octet), with single-bit flips of every honest encoding and round trips through octets, public-key coordinates and JSON."},
+    "C10": {"kind": "det", "level": "translation_validation", "title": "Byte-exact agreement with the drafts",
+            "level_text": "The specification's terms are the reference: the concrete evaluator interprets the field lists exported from Layouts.tla (the same lists the toy model hashes) and must first reproduce every fixture; for every case of slice det (key generation with all size-limit classes, hash_to_scalar, message mapping, generators for built-in / absent / empty / custom api ids and counts) and every behaviour of the API slices, library octets = evaluated term and library decision = reference decision, from one thread and from 16 threads in shuffled order (TLC: results are schedule independent).",
+            "technique": "TLA+ layouts interpreted by an independent evaluator; TLC-enumerated grid and behaviours replayed; octet-level comparison"},
+    "C11": {"kind": "det", "title": "Domain separation",
+            "level_text": "TLC checks (slice inject) that every hash input layout is an injective encoding of its argument tuple over a tiny octet alphabet; the cross-suite / cross-interface re-interpretations enumerated by the slices sig, proof_adv, blind_adv (invariants C02, C04, C06) are replayed into the library (all must be rejected); generator sets for every api id in use and custom / absent ids are checked for prefix consistency, duplicates, identity, P1 and pairwise disjointness across ciphersuites and api ids."},
+    "C13": {"kind": "cl", "title": "CL03 signatures",
+            "level_text": CLTXT + "C13: invariant C13toy (every toy key, attribute vector, admissible e and every derivation v * prod a_i^alpha_i * b^beta with coefficients in -2..2: issued signatures verify, derived pairs verify only for the unchanged vector); the derivations are exported and replayed on real CL1024 (thorough: CL2048) keys together with statement and component edits, selective disclosure of every subset, encodings and facts about e."},
+    "C14": {"kind": "cl", "title": "CL03 blind issuance",
+            "level_text": CLTXT + "C14: every non-empty hidden set for n <= 3 (thorough 5), with and without trusted commitment: verify_proof, blind_sign, unblind, verify, update; mismatch families and every integer leaf of the serialised proof perturbed; blind_sign's refusal is observed as its documented panic."},
+    "C15": {"kind": "cl", "title": "CL03 proof of knowledge of a signature",
+            "level_text": CLTXT + "C15: invariant C15used (every leaf the format carries is used by the verifier); every hidden subset, single edits of the statement, and every integer leaf of the serialised proof perturbed (+1, -1, 0, swap)."},
+    "C16": {"kind": "cl", "title": "Boudot range proof",
+            "level_text": CLTXT + "C16: invariant C16anchored (every part of the square decomposition is certified by a sub-proof tied to a recomputed value); widths 1, 2, 3, 2^8, 2^64, 2^256-1 (thorough 2^1024-1), positions a, a+1, mid, b-1, b, random, three base sets; other bounds / bases / modulus; transplants onto a-1, b+1, a-2^k, b+2^k and a random element; every leaf +-1; the honest prover outside the interval."},
+    "C17": {"kind": "cl", "title": "CL03 proofs do not carry openings",
+            "level_text": CLTXT + "C17: invariant C17noOpenings (the intended formats contain no commitment randomness); the leaf paths of real proofs must equal the specification's format; every (value, randomness) pair is tested against every public base pair and hidden secret, a two-candidate dictionary attack and the recovery of v."},
+    "C18": {"kind": "cl", "title": "CL03 keys and parameters",
+            "level_text": CLTXT + "C18: invariant C18toy (for every pair of safe primes below the bound the accept conditions of random_qr and of the commitment-key bases imply well-formedness); facts about generated keys computed by an independent Miller-Rabin / Jacobi implementation; encodings; random_bits / rand_int."},
+    "C19": {"kind": "cl", "title": "CL03 responses mask their secrets",
+            "level_text": CLTXT + "C19: invariant C19masks over the table of blinding lengths for the three suites; for real proofs every response leaf is divided by every recomputable challenge and by every other response and compared with every secret the prover holds."},
     "C12": {"slices": ["update", "shape_sig"], "traces": "sig", "tally": ["C12", "C02", "C01"], "title": "Signature update over any history",
             "level_text": MC_TEXT + "slice `update`: every history of up to Depth updates at every position with every new value, with correct and wrong old values, out-of-range positions, then verification against the intended current vector and every earlier vector; updated signature octets equal the reference's B(msgs)/(sk+e)."},
 }
@@ -408,6 +436,412 @@ def run_property(prop, tier):
     print("OK property=%s tier=%s states=%d cases=%d checks=%d wall=%.0fs" % (prop, tier, tot_states, distinct, evaluations, time.time() - t0))
     return 0
 
+# ----------------------------------------------------------------------------
+# C08 / C09: slice `codec` (decoders, count arithmetic) replayed into the decoders
+# ----------------------------------------------------------------------------
+def run_codec_property(prop, tier):
+    t0 = time.time()
+    build_harness()
+    ensure_layouts()
+    fx = check_fixtures()
+    consts = {"Dev": "{}", "MaxN": 2 if tier == "quick" else 4}
+    rc, out = tlc("MC_codec", cfg_text(consts, init="Init", invariants=["C08", "C09", "Export"]), "%s_codec_%s" % (prop, tier), workers=4)
+    err = tlc_error(out)
+    violations = []
+    stats = tlc_stats(out)
+    if err:
+        m = re.search(r"Invariant (\w+) is violated", out)
+        if not m:
+            raise ToolError("TLC failed on slice codec: %s\n%s" % (err, out[-2000:]))
+        violations.append({"property": prop, "what": "TLC: invariant %s violated in slice codec (specification level)" % m.group(1)})
+    cases = os.path.join(BUILD, "cases_%s_codec_%s.ndjson" % (prop, tier))
+    n = 0
+    kinds = {}
+    with open(cases, "w") as f:
+        for m in re.finditer(r'^<<"CASE", "(.*)">>$', out, re.M):
+            line = json.loads('"' + m.group(1) + '"')
+            f.write(line + "\n")
+            n += 1
+            c = json.loads(line)
+            k = c["kind"] + ":" + (c.get("codec") or c.get("op")) + ":" + c["res"]
+            kinds[k] = kinds.get(k, 0) + 1
+    if n == 0:
+        raise ToolError("slice codec exported no case")
+    repf = os.path.join(BUILD, "rep_%s_codec_%s.json" % (prop, tier))
+    sh([ZKV, "replay-codec", cases, repf, "--flip-stride", "7" if tier == "quick" else "1"],
+       env={"ZKV_LAYOUTS": LAYOUTS, "VERIF_SEED": str(seed())}, timeout=3000)
+    rep = json.load(open(repf))
+    for mm in rep["mismatches"]:
+        if mm["property"] == prop:
+            violations.append(mm)
+    # the API-level slices also exercise panics (C08) and re-encodings (C09): count their tallies
+    extra = {}
+    api_names = (["proof_adv", "blind_adv"] if prop == "C08" else ["sig", "proof"])
+    if tier == "quick":
+        api_names = api_names[-1:] if prop == "C09" else []
+    for name in api_names:
+        res, cs = run_slice(name, "quick", prop)
+        r2 = replay(cs, "quick", prop, name, 0)
+        extra[name] = {"cases": r2["cases"], "checks": r2["checks"].get(prop, 0)}
+        for mm in r2["mismatches"]:
+            if mm["property"] == prop:
+                violations.append(mm)
+    evals = rep["checks"].get(prop, 0) + sum(v["checks"] for v in extra.values())
+    ev = {
+        "property_id": prop, "tier": tier, "seed": seed(), "level": "model_checking",
+        "coverage": {
+            "states": stats["distinct"], "transitions": stats["states"], "traces_validated_against_impl": 0,
+            "cases_replayed_into_impl": rep["cases"] + sum(v["cases"] for v in extra.values()),
+            "evaluations": evals, "distinct_nontrivial": n,
+            "rule": "one case per (codec, number of variable scalars, content class of every field, length delta) and per point of the grid of caller-supplied numbers; distinct by these coordinates; every case is built concretely and handed to the library's decoders / entry points under catch_unwind with a generator budget",
+            "samples": rep["samples"][:4], "case_kinds": kinds, "api_slices": extra, "fixtures_reproduced": fx, "exhaustive": True,
+        },
+        "assumptions": ["lengths 0 .. honest + 64 for every codec with up to MaxN variable scalars; one non-valid field at a time",
+                        "usize modelled by a scaled range (MaxU -> usize::MAX, Half -> 2^63, Big -> 2^32)"],
+        "wall_s": round(time.time() - t0, 1), "violations": len(violations),
+    }
+    return finish(prop, tier, ev, violations, "states=%d cases=%d checks=%d" % (stats["distinct"], n, evals), t0)
+
+
+def finish(prop, tier, ev, violations, summary, t0):
+    os.makedirs(EVID, exist_ok=True)
+    with open(os.path.join(EVID, prop + ".json"), "w") as f:
+        json.dump(ev, f, indent=1)
+    if violations:
+        seen = set()
+        for v in violations[:10]:
+            path = write_replay_file(prop, v)
+            if path in seen:
+                continue
+            seen.add(path)
+            print("VIOLATION property=%s replay=%s" % (prop, path))
+            print("  " + str(v.get("what"))[:200] + " expected=" + str(v.get("expected"))[:80] + " observed=" + str(v.get("observed"))[:80])
+        return 1
+    print("OK property=%s tier=%s %s wall=%.0fs" % (prop, tier, summary, time.time() - t0))
+    return 0
+
+
+# ----------------------------------------------------------------------------
+# C07: slice `rng` + randomness traces from threads and processes
+# ----------------------------------------------------------------------------
+RNG_CFG = """CONSTANTS
+  Threads <- MCThreads
+  Jobs <- MCJobs
+  Shared = %s
+INIT Init
+NEXT Next
+INVARIANTS Fresh Consumption
+CHECK_DEADLOCK FALSE
+"""
+RNG_TRACE_CFG = """INIT TraceInit
+NEXT TraceNext
+POSTCONDITION TraceAccepted
+CHECK_DEADLOCK FALSE
+"""
+
+
+def run_rng_property(prop, tier):
+    t0 = time.time()
+    build_harness()
+    ensure_layouts()
+    rc, out = tlc("MC_rng", RNG_CFG % "FALSE", "C07_rng", workers=4)
+    if tlc_error(out):
+        raise ToolError("slice rng failed: " + out[-2000:])
+    stats = tlc_stats(out)
+    # non-vacuity: the shared-stream defect must violate Fresh
+    rc, out2 = tlc("MC_rng", RNG_CFG % "TRUE", "C07_rng_shared", workers=4)
+    if "Invariant Fresh is violated" not in out2:
+        raise ToolError("slice rng is vacuous: the shared-stream model does not violate Fresh")
+    violations = []
+    traces = []
+    confs = [(1, 1, 40), (1, 2, 24), (1, 16, 12), (2, 4, 16)] if tier == "quick" else [(1, 1, 400), (1, 2, 200), (1, 16, 120), (2, 16, 60), (4, 8, 60)]
+    nev = 0
+    samples = []
+    for ci, (procs, threads, iters) in enumerate(confs):
+        path = os.path.join(BUILD, "rngtrace_%s_%d.ndjson" % (tier, ci))
+        with open(path, "w") as f:
+            for pr in range(procs):                  # separately started processes, same inputs
+                part = path + ".p%d" % pr
+                sh([ZKV, "rng", part, "--proc", str(pr), "--threads", str(threads), "--iters", str(iters)],
+                   env={"ZKV_LAYOUTS": LAYOUTS, "VERIF_SEED": str(seed())}, timeout=3000)
+                f.write(open(part).read())
+                os.remove(part)
+        rc, o = tlc("Trace_Rng", RNG_TRACE_CFG, "C07_trace_%d" % ci, workers=1, extra_env={"TRACE": path},
+                    java_opts="-Xss512m -Dtlc2.tool.queue.IStateQueue=StateDeque", timeout=3000)
+        n = sum(1 for _ in open(path))
+        nev += n
+        m = re.search(r'<<"TRACE-REJECTED", "events", (\d+), "matched", (\d+), "first unmatched", "(.*)">>', o)
+        if m:
+            evj = json.loads(json.loads('"' + m.group(3) + '"'))
+            violations.append({"property": prop, "what": "randomness trace rejected (procs=%d threads=%d): a value was repeated, zero, short, or a hidden value appears in an encoding" % (procs, threads),
+                               "expected": "fresh, non-zero, full-size values; 0 scan hits", "observed": json.dumps(evj)[:300], "trace": path, "event": evj})
+        elif "Model checking completed. No error has been found." not in o:
+            raise ToolError("TLC failed on randomness trace: " + o[-1500:])
+        traces.append({"procs": procs, "threads": threads, "iters": iters, "events": n, "accepted": m is None})
+        if ci == 0:
+            with open(path) as f:
+                samples = [json.loads(next(f)) for _ in range(4)]
+    ev = {
+        "property_id": prop, "tier": tier, "seed": seed(), "level": "model_checking",
+        "coverage": {
+            "states": stats["distinct"], "transitions": stats["states"],
+            "traces_validated_against_impl": sum(1 for t in traces if t["accepted"]),
+            "trace_events_validated": nev, "evaluations": nev, "distinct_nontrivial": nev,
+            "rule": "one event per production random draw (hook), per randomised artefact (blinding scalars recomputed by the witness holder, group elements, secrets) and per encoding scan; all values must be pairwise distinct over the merged trace of all threads and processes",
+            "samples": samples, "traces": traces, "shared_stream_model_violates_Fresh": True, "exhaustive": False,
+        },
+        "assumptions": ["distinctness, non-zero and size are checked, not unpredictability: the quality of rand::thread_rng is trusted",
+                        "digests are 96-bit prefixes of SHA-256"],
+        "wall_s": round(time.time() - t0, 1), "violations": len(violations),
+    }
+    return finish(prop, tier, ev, violations, "states=%d trace_events=%d" % (stats["distinct"], nev), t0)
+
+
+# ----------------------------------------------------------------------------
+# C10 / C11: slice `det` (+ `inject` for C11) and the C10 / C11 tallies of the API slices
+# ----------------------------------------------------------------------------
+def keep_cross_cases(path):
+    """keep the behaviours whose last (deciding) call uses another suite / interface than the artefact it is given"""
+    blind_ops = {"VerifyBlind", "BlindSign", "BlindProofGen", "BlindProofVerify", "Commit"}
+    out = path.replace(".ndjson", "_cross.ndjson")
+    with open(out, "w") as f:
+        for line in open(path):
+            steps = json.loads(line)
+            last = steps[-1]
+            prod = [st for st in steps[:-1] if st["op"] in ("Sign", "BlindSign", "ProofGen", "BlindProofGen", "Commit")]
+            if not prod or "s" not in last["args"]:
+                continue
+            src = prod[-1]
+            same = (last["args"]["s"] == src["args"]["s"]) and ((last["op"] in blind_ops) == (src["op"] in blind_ops))
+            if not same:
+                f.write(line)
+    return out
+
+
+def run_det_property(prop, tier):
+    t0 = time.time()
+    build_harness()
+    ensure_layouts()
+    fx = check_fixtures()
+    violations = []
+    rc, out = tlc("MC_det", "INIT Init\nNEXT Next\nINVARIANTS Deterministic Export\nCHECK_DEADLOCK FALSE\n", "%s_det_%s" % (prop, tier), workers=4)
+    if tlc_error(out):
+        raise ToolError("slice det failed: " + out[-2000:])
+    stats = tlc_stats(out)
+    cases = os.path.join(BUILD, "cases_%s_det_%s.ndjson" % (prop, tier))
+    n = 0
+    with open(cases, "w") as f:
+        for m in re.finditer(r'^<<"CASE", "(.*)">>$', out, re.M):
+            f.write(json.loads('"' + m.group(1) + '"') + "\n")
+            n += 1
+    if n == 0:
+        raise ToolError("slice det exported no case")
+    repf = os.path.join(BUILD, "rep_%s_det_%s.json" % (prop, tier))
+    sh([ZKV, "replay-det", cases, repf, "--threads", "16"], env={"ZKV_LAYOUTS": LAYOUTS, "VERIF_SEED": str(seed())}, timeout=3000)
+    rep = json.load(open(repf))
+    evals = rep["checks"].get(prop, 0)
+    for mm in rep["mismatches"]:
+        if mm["property"] == prop:
+            violations.append(mm)
+    inject = None
+    if prop == "C11":
+        rc, o = tlc("MC_inject", "INIT Init\nNEXT Next\nINVARIANTS InjDomain InjSigE InjChallenge InjBlindChal InjBlindSigE InjGenIter Report\nCHECK_DEADLOCK FALSE\n",
+                    "C11_inject", workers=1)
+        m = re.search(r"Invariant (\w+) is violated", o)
+        if m:
+            violations.append({"property": prop, "what": "TLC: hash input layout is not injective: %s (specification level)" % m.group(1)})
+        elif "Model checking completed. No error has been found." not in o:
+            raise ToolError("slice inject failed: " + o[-1500:])
+        r = re.search(r'<< "INJECT",(.*?)>>', o, re.S)
+        inject = " ".join(r.group(1).split()) if r else None
+    # API slices: octet / decision agreement (C10) or cross-suite / cross-interface rejections (C11)
+    api = {}
+    slices = (["sig", "proof", "blind", "update", "shape_sig"] if prop == "C10" else ["sig", "proof_adv", "blind_adv"])
+    if tier == "quick":
+        slices = slices[:3] if prop == "C10" else slices
+    samples = list(rep["samples"][:2])
+    tot_states, tot_trans, ncases = stats["distinct"], stats["states"], n
+    for name in slices:
+        res, cs = run_slice(name, tier if prop == "C10" and name in ("sig",) else "quick", prop)
+        if prop == "C11":
+            cs = keep_cross_cases(cs)
+        r2 = replay(cs, "quick", prop, name, 0)
+        api[name] = {"cases": r2["cases"], "checks": r2["checks"].get(prop, 0), "constants": res["constants"]}
+        evals += r2["checks"].get(prop, 0)
+        ncases += r2["cases"]
+        tot_states += res["stats"]["distinct"]
+        tot_trans += res["stats"]["states"]
+        samples += r2["samples"][:1]
+        for mm in r2["mismatches"]:
+            if mm["property"] == prop:
+                violations.append(mm)
+    level = "translation_validation" if prop == "C10" else "model_checking"
+    cov = {
+        "states": tot_states, "transitions": tot_trans, "traces_validated_against_impl": 0,
+        "cases_replayed_into_impl": ncases, "evaluations": evals, "distinct_nontrivial": ncases,
+        "programs": ncases, "disagreements_checked": evals,
+        "rule": "one case per point of the argument-class grid of slice det and per behaviour of the API slices; for each, the library's octets and decisions are compared with the concrete evaluation of the specification (reference evaluator driven by Layouts.tla), from one thread and from 16 threads in shuffled order",
+        "samples": samples[:4], "api_slices": api, "fixtures_reproduced": fx, "inject": inject, "exhaustive": True,
+    }
+    ev = {"property_id": prop, "tier": tier, "seed": seed(), "level": level, "coverage": cov,
+          "assumptions": ["the reference evaluator shares the hash and curve primitive crates with the library; it must first reproduce every fixture",
+                          "schedules: the deterministic operations have no shared state; 16 threads in shuffled order are compared with one thread"],
+          "wall_s": round(time.time() - t0, 1), "violations": len(violations)}
+    return finish(prop, tier, ev, violations, "states=%d cases=%d checks=%d" % (tot_states, ncases, evals), t0)
+
+
+# ----------------------------------------------------------------------------
+# C13 .. C19: CL03 -- slices of MC_cl.tla and driver logs validated against Trace_CL.tla
+# ----------------------------------------------------------------------------
+CL = {
+    "C13": {"inv": ["C13toy", "ExportDerivs"], "drivers": ["sig"], "ops": {"CLVerify", "CLSigFacts", "CLDisclose", "CLRoundTrip"}},
+    "C14": {"inv": ["C15used"], "drivers": ["blind"], "ops": {"CLIssue", "CLUpdate", "CLLeaf:zkpok"}},
+    "C15": {"inv": ["C15used"], "drivers": ["pok"], "ops": {"CLPoK", "CLLeaf:spok", "CLFormat:spok"}},
+    "C16": {"inv": ["C16anchored"], "drivers": ["boudot"], "ops": {"CLRange", "CLLeaf:range", "CLFormat:range"}},
+    "C17": {"inv": ["C17noOpenings"], "drivers": ["leak", "blind"], "ops": {"CLFormat:zkpok", "CLFormat:spok", "CLOpenings", "CLDictionary"}},
+    "C18": {"inv": ["C18toy"], "drivers": ["keys", "sig"], "ops": {"CLKeyFacts", "CLRandomFacts", "CLRoundTrip"}},
+    "C19": {"inv": ["C19masks"], "drivers": ["leak"], "ops": {"CLMask", "CLMaskLens"}},
+}
+CL_TRACE_CFG = """CONSTANTS
+  Dev = %s
+INIT TraceInit
+NEXT TraceNext
+POSTCONDITION TraceAccepted
+CHECK_DEADLOCK FALSE
+"""
+
+
+def open_findings():
+    k = json.load(open(os.path.join(ROOT, "known_findings.json")))
+    return [f for f in k["findings"] if f["status"].startswith("open")]
+
+
+def finding_matches(f, ev):
+    """does event ev exhibit open finding f? (signatures are listed in known_findings.json)"""
+    for sig in f.get("signatures", []):
+        if sig.get("op") != ev.get("op"):
+            continue
+        ok = True
+        for k, v in sig.items():
+            if k == "op":
+                continue
+            if k == "path_in":
+                ok &= ev.get("path") in v
+            elif k == "path_suffix":
+                ok &= str(ev.get("path", "")).endswith(v)
+            elif k == "paths_contain_suffix":
+                ok &= any(str(x).endswith(v) for x in ev.get("paths", []))
+            elif k == "bits_below":
+                ok &= ev.get("bits", 1 << 30) < v
+            elif k == "nonempty":
+                ok &= len(ev.get(v, [])) > 0
+            else:
+                ok &= ev.get(k) == v
+        if ok:
+            return True
+    return False
+
+
+def cl_validate(path, dev, name):
+    rc, out = tlc("Trace_CL", CL_TRACE_CFG % dev, name, workers=1, extra_env={"TRACE": path},
+                  java_opts="-Xss512m -Dtlc2.tool.queue.IStateQueue=StateDeque", timeout=3000)
+    m = re.search(r'<<"TRACE-REJECTED", "events", (\d+), "matched", (\d+), "first unmatched", "(.*)">>', out)
+    if m:
+        return False, int(m.group(2)), json.loads(json.loads('"' + m.group(3) + '"'))
+    if "Model checking completed. No error has been found." in out:
+        return True, None, None
+    raise ToolError("TLC failed on CL trace: " + out[-1500:])
+
+
+def run_cl_property(prop, tier):
+    t0 = time.time()
+    spec = CL[prop]
+    build_harness(cl=True)
+    violations = []
+    known = []
+    # --- specification level: the bounded slices of MC_cl.tla
+    consts = {"Dev": "{}", "MaxN": 2, "Bound": 60 if tier == "quick" else 230}
+    rc, out = tlc("MC_cl", cfg_text(consts, init="Init", invariants=spec["inv"]), "%s_cl_%s" % (prop, tier), workers=1, timeout=3000)
+    if "Model checking completed. No error has been found." not in out:
+        m = re.search(r"invariant of (\w+) is equal to FALSE|Invariant (\w+) is violated", out)
+        if m:
+            violations.append({"property": prop, "what": "TLC: invariant %s fails on the specification (intended behaviour)" % (m.group(1) or m.group(2))})
+        else:
+            raise ToolError("slice MC_cl failed: " + out[-2000:])
+    stats = tlc_stats(out)
+    # the as-is specification (open findings switched on) exhibits the finding at the specification level
+    ofs = open_findings()
+    dev_open = "{" + ", ".join('"%s"' % f["deviation"] for f in ofs) + "}"
+    spec_level = None
+    if ofs:
+        rc, o2 = tlc("MC_cl", cfg_text(dict(consts, Dev=dev_open, Bound=12), init="Init", invariants=[i for i in spec["inv"] if i != "ExportDerivs"]), "%s_cl_asis" % prop, workers=1, timeout=3000)
+        m = re.search(r"invariant of (\w+) is equal to FALSE|Invariant (\w+) is violated", o2)
+        spec_level = (m.group(1) or m.group(2)) if m else None
+    derivs = os.path.join(BUILD, "cl_derivs_%s.ndjson" % prop)
+    with open(derivs, "w") as f:
+        for m in re.finditer(r'^<<"CASE", "(.*)">>$', out, re.M):
+            f.write(json.loads('"' + m.group(1) + '"') + "\n")
+    # --- implementation -> specification: driver logs
+    suites = [("1024", 2 if tier == "quick" else 6)] + ([("2048", 2)] if tier == "thorough" else [])
+    nev = 0
+    samples = []
+    logs = []
+    for suite, nkeys in suites:
+        for drv in spec["drivers"]:
+            raw = os.path.join(BUILD, "cl_%s_%s_%s_%s.ndjson" % (prop, drv, suite, tier))
+            cmd = [ZKVCL, drv, raw, "--keys", str(nkeys), "--suite", suite, "--leaf-stride", "13" if tier == "quick" else "1"]
+            if tier == "thorough" and suite == "1024":
+                cmd.append("--thorough")
+            if drv == "sig" and os.path.getsize(derivs) > 0:
+                cmd += ["--derivs", derivs]
+            sh(cmd, env=dict(cl_env(), VERIF_SEED=str(seed())), timeout=14000)
+            evs = [json.loads(l) for l in open(raw)]
+            keep = [e for e in evs if e["op"] in spec["ops"] or ("%s:%s" % (e["op"], e.get("proof"))) in spec["ops"]]
+            if not keep:
+                raise ToolError("driver %s produced no event for %s" % (drv, prop))
+            path = raw.replace(".ndjson", "_sel.ndjson")
+            with open(path, "w") as f:
+                for e in keep:
+                    f.write(json.dumps(e) + "\n")
+            nev += len(keep)
+            samples += keep[:2]
+            ok, matched, ev0 = cl_validate(path, "{}", "%s_trace_%s_%s" % (prop, drv, suite))
+            entry = {"driver": drv, "suite": suite, "events": len(keep), "intended": ok}
+            if not ok:
+                ok2, matched2, ev2 = cl_validate(path, dev_open, "%s_trace_asis_%s_%s" % (prop, drv, suite)) if ofs else (False, matched, ev0)
+                entry["as_is"] = ok2
+                if ok2:
+                    for f in ofs:
+                        hits = [e for e in keep if finding_matches(f, e)]
+                        if hits:
+                            known.append({"finding": f["id"], "what": f["what"], "events": len(hits), "example": hits[0]})
+                else:
+                    violations.append({"property": prop, "what": "driver log (%s, CL%s) rejected by the specification at event %d: %s" % (drv, suite, matched2 + 1, json.dumps(ev2)[:300]),
+                                       "expected": "the specification's prediction", "observed": json.dumps(ev2)[:200], "trace": path, "event": ev2})
+            logs.append(entry)
+    seenk = set()
+    for kf in known:
+        if kf["finding"] in seenk:
+            continue
+        seenk.add(kf["finding"])
+        print("KNOWN-FINDING: property=%s %s: %s" % (prop, kf["finding"], kf["what"]))
+    ev = {
+        "property_id": prop, "tier": tier, "seed": seed(), "level": "model_checking",
+        "coverage": {
+            "states": max(stats["distinct"], 1), "transitions": max(stats["states"], 1),
+            "traces_validated_against_impl": sum(1 for l in logs if l["intended"] or l.get("as_is")),
+            "trace_events_validated": nev, "evaluations": nev, "distinct_nontrivial": nev,
+            "rule": "one event per observation of the real library (feature cl03): every hidden-position subset, mismatch family, derivation exported by TLC, integer leaf perturbation, interval width / position; the bounded slices of MC_cl.tla are constant-level invariants evaluated by TLC (toy RSA groups, formats, anchoring, mask table)",
+            "samples": samples[:4], "logs": logs, "slice_invariants": spec["inv"], "slice_constants": consts,
+            "as_is_specification_violates": spec_level, "known_findings_reobserved": known, "exhaustive": False,
+        },
+        "assumptions": ["CL03 runs against a GMP built without assembly (no m4 in the sandbox)",
+                        "toy RSA moduli from safe primes below Bound; attribute size 3 bits in the toy model",
+                        "keys are generated by the library under test (CL%s)" % "/".join(s for s, _ in suites)],
+        "wall_s": round(time.time() - t0, 1), "violations": len(violations),
+    }
+    return finish(prop, tier, ev, violations, "events=%d known=%d" % (nev, len(seenk)), t0)
+
 
 def setup():
     build_harness()
@@ -431,6 +865,15 @@ def main(argv):
         tier = argv[1] if len(argv) > 1 else os.environ.get("VERIF_TIER", "quick")
         if tier not in ("quick", "thorough"):
             tier = "quick"
+        kind = PROPS[prop].get("kind", "api")
+        if kind == "codec":
+            return run_codec_property(prop, tier)
+        if kind == "rng":
+            return run_rng_property(prop, tier)
+        if kind == "det":
+            return run_det_property(prop, tier)
+        if kind == "cl":
+            return run_cl_property(prop, tier)
         return run_property(prop, tier)
     except ToolError as e:
         print("TOOL-ERROR:", e)
